@@ -19,6 +19,32 @@ def check_split_args_quotes(ctx, u, R):
         closes = [x for x in walk(body_of(sa_)) if x.get('kind') == 'BinaryOperator' and x.get('opcode') == '=' and (ref_decl(x['inner'][0]) or {}).get('id') == cq['id'] and int_value(x['inner'][1]) == 0]
         okq = len(closes) == 1 and any(nf(n_) in ('(%s == s[z])' % cq['name'], '(s[z] == %s)' % cq['name']) and p_ for n_, p_ in atoms(path_facts(closes[0])))
     ctx.check(okq, R, 'split_args|quote-kind-remembered', cq or sa_, 'a quoted section closes only on the same quote character that opened it', 'split_args does not remember which quote character opened the section: the other quote character closes it')
+    # the scanner never looks behind, and a token is started in exactly one situation: a character
+    # that is not inter-argument space arrives while the scanner is between arguments
+    body = body_of(sa_)
+    loops = [x for x in walk(body) if x.get('kind') == 'ForStmt']
+    idx = next((v for v in walk(for_parts(loops[0])[0]) if v.get('kind') == 'VarDecl'), None) if loops else None
+    back = []
+    if idx is not None:
+        for x in walk(body):
+            if x.get('kind') in ('ArraySubscriptExpr', 'CXXOperatorCallExpr') and (x.get('kind') == 'ArraySubscriptExpr' or call_name(x) == 'operator[]'):
+                ie = kids(x)[-1]
+                s0 = strip(ie)
+                if s0.get('kind') == 'BinaryOperator' and s0.get('opcode') == '-' and (ref_decl(s0['inner'][0]) or {}).get('id') == idx['id']:
+                    back.append(x)
+    ctx.check(not back, R, 'split_args|no-look-behind', back[0] if back else sa_, 'no test of an earlier character', 'split_args looks at an earlier character (%s): whether it was escaped or quoted is not known there, so an escaped quote / an empty quoted pair inside a word is misread' % (src_text(back[0], 40) if back else ''))
+    starts = [c for c in walk(body) if c.get('kind') == 'CXXMemberCallExpr' and call_name(c) in ('emplace_back', 'push_back') and canon(member_call_object(c)) == 'ret']
+    okst = len(starts) == 1
+    why = '%d token-start sites' % len(starts)
+    if okst:
+        fs_ = [(nf(n_), p_) for n_, p_ in atoms(path_facts(starts[0]))]
+        bools = {v.get('name'): v for v in walk(body) if v.get('kind') == 'VarDecl' and dtype(v) == 'bool'}
+        between = [nm for nm, p_ in fs_ if p_ and nm in bools and 'between' in nm and 'is_' not in nm]
+        notspace = [nm for nm, p_ in fs_ if not p_ and nm in bools and nm.startswith('is_')]
+        okst = bool(between) and bool(notspace)
+        why = 'the token start is guarded by %s' % fs_
+    ctx.check(okst, R, 'split_args|single-token-start', starts[0] if starts else sa_, 'a token starts only when a non-space character arrives between arguments',
+              'split_args starts tokens elsewhere than on the first non-space character after inter-argument space (%s): phantom or split arguments' % why)
 
 
 def run(ctx):
@@ -26,7 +52,7 @@ def run(ctx):
     ctx.rule('C08-R2', 'split: loop admits token_start == size() (trailing empty piece), max_splits stops the search not the emission, tail pushed then break; string and wstring versions identical; split_context pushes the tail', 8)
     ctx.rule('C08-R3', 'string_vprintf builds its result from the pointer and length returned by vasprintf (no fixed buffer, no strlen) and frees it; string_printf pairs va_start/va_end', 5)
     ctx.rule('C08-R4', 'split_args / split_context / strip_multiline_comments throw only runtime_error; the other helpers contain no throw; str_replace_all advances past each match', 14)
-    ctx.rule('C08-R5', 'quote-aware scanners carry the escape state in a variable (set on an unescaped backslash, cleared after one character); no look-behind at the previous character', 4)
+    ctx.rule('C08-R5', 'quote-aware scanners carry the escape state in a variable (set on an unescaped backslash, cleared after one character); no look-behind at the previous character; split_args starts a token at one site only', 5)
     w = ctx.unit(witness_unit('c08.cc'))
     u = ctx.unit(repo_unit('Strings.cc'))
 
@@ -260,7 +286,7 @@ def run(ctx):
 
     # ---- R5
     R = 'C08-R5'
-    for nm in ('split_context', 'split_args'):
+    for nm in ('split_context',):
         f = u.func('phosg::' + nm)[0]
         back = [x for x in walk(body_of(f)) if x.get('kind') in ('ArraySubscriptExpr', 'CXXOperatorCallExpr') and 'z - 1' in canon(x) and canon(x).startswith('s[')]
         ctx.check(not back, R, nm + '|no-look-behind', back[0] if back else f, 'no test of the previous character', 'escape detection looks at the previous character (%s): an escaped backslash before a quote is misread as escaping the quote' % (canon(back[0]) if back else ''))
